@@ -187,6 +187,14 @@ var hereditary = map[string]func(g *graph.DenseGraph) bool{
 		}
 		return true
 	},
+	"maxdeg1": func(g *graph.DenseGraph) bool {
+		for _, d := range g.Degrees() {
+			if d > 1 {
+				return false
+			}
+		}
+		return true
+	},
 	"k4free":    func(g *graph.DenseGraph) bool { return graph.CliqueNumber(g) < 4 },
 	"bipartite": func(g *graph.DenseGraph) bool { ok, _ := graph.IsKColorable(g, 2); return ok || g.N() == 0 },
 	"forest":    func(g *graph.DenseGraph) bool { return graph.Girth(g) == -1 },
@@ -422,9 +430,12 @@ func searchGrid(c *Ctx) []searchSeg {
 	}
 	// larger sizes, pruned searches only (relational judgement)
 	bigs := []searchSeg{{N: 8, Big: "trianglefree"}, {N: 9, Big: "trianglefree"}, {N: 10, Big: "trianglefree"}, {N: 9, Big: "forest"}, {N: 10, Big: "forest"},
-		{N: 10, Big: "maxdeg2"}, {N: 11, Big: "maxdeg2"}, {N: 9, Big: "bipartite"}, {N: 8, Big: "cograph"}, {N: 8, Big: "alpha2"}}
+		{N: 10, Big: "maxdeg2"}, {N: 11, Big: "maxdeg2"}, {N: 9, Big: "bipartite"}, {N: 8, Big: "cograph"}, {N: 8, Big: "alpha2"},
+		// parents of more than 12 / 16 vertices (sort and bit-mask paths of the augmentation step), counts judged by closed forms
+		{N: 13, Big: "maxdeg2"}, {N: 14, Big: "maxdeg1"}, {N: 18, Big: "maxdeg1"}, {N: 19, Big: "maxdeg1"}}
 	if c.Thorough() {
-		bigs = append(bigs, searchSeg{N: 11, Big: "forest"}, searchSeg{N: 12, Big: "maxdeg2"}, searchSeg{N: 10, Big: "bipartite"}, searchSeg{N: 9, Big: "cograph"}, searchSeg{N: 11, Big: "trianglefree"})
+		bigs = append(bigs, searchSeg{N: 11, Big: "forest"}, searchSeg{N: 12, Big: "maxdeg2"}, searchSeg{N: 10, Big: "bipartite"}, searchSeg{N: 9, Big: "cograph"}, searchSeg{N: 11, Big: "trianglefree"},
+			searchSeg{N: 14, Big: "maxdeg2"}, searchSeg{N: 15, Big: "maxdeg2"}, searchSeg{N: 22, Big: "maxdeg1"}, searchSeg{N: 33, Big: "maxdeg1"})
 	}
 	segs = append(segs, bigs...)
 	return segs
